@@ -33,6 +33,18 @@ func senderOps() []sop {
 	return ops
 }
 
+// senderOpsPadded: the alphabet plus every acknowledgement (for the oldest
+// request awaiting it) with its remaining length written in one byte more than
+// necessary; the library's decoders accept that form, so it acknowledges what
+// it names.
+func senderOpsPadded() []sop {
+	ops := senderOps()
+	for _, a := range []string{"PUBACK", "PUBREC", "PUBCOMP", "SUBACK", "UNSUBACK", "PINGRESP"} {
+		ops = append(ops, sop{"ack:" + a + ":padded"})
+	}
+	return ops
+}
+
 func queueOf(kind string) string {
 	switch kind {
 	case "pub1", "pub2", "sub", "unsub", "ping":
@@ -179,28 +191,38 @@ func runSender(ops []sop, hist []int, trace bool) (viol, key string, steps int) 
 					r = cand[len(cand)-1]
 				}
 				var want []*refcodec.Packet
+				pad := 0
+				if which == "padded" {
+					pad = 1
+				}
 				switch typ {
 				case "PUBACK":
 					r.Acked = true
-					w.ServerSend(&refcodec.Packet{Type: refcodec.PUBACK, ID: r.ID})
+					w.ServerSend(&refcodec.Packet{Type: refcodec.PUBACK, ID: r.ID, PadLength: pad})
 				case "PUBREC":
 					r.RecSent = true
-					w.ServerSend(&refcodec.Packet{Type: refcodec.PUBREC, ID: r.ID})
+					w.ServerSend(&refcodec.Packet{Type: refcodec.PUBREC, ID: r.ID, PadLength: pad})
 					want = []*refcodec.Packet{{Type: refcodec.PUBREL, ID: r.ID}}
 				case "PUBCOMP":
 					r.Acked = true
-					w.ServerSend(&refcodec.Packet{Type: refcodec.PUBCOMP, ID: r.ID})
+					w.ServerSend(&refcodec.Packet{Type: refcodec.PUBCOMP, ID: r.ID, PadLength: pad})
 				case "SUBACK":
 					r.Acked = true
-					w.ServerSend(&refcodec.Packet{Type: refcodec.SUBACK, ID: r.ID, Codes: []byte{1}})
+					w.ServerSend(&refcodec.Packet{Type: refcodec.SUBACK, ID: r.ID, Codes: []byte{1}, PadLength: pad})
 				case "UNSUBACK":
 					r.Acked = true
-					w.ServerSend(&refcodec.Packet{Type: refcodec.UNSUBACK, ID: r.ID})
+					w.ServerSend(&refcodec.Packet{Type: refcodec.UNSUBACK, ID: r.ID, PadLength: pad})
 				case "PINGRESP":
 					r.Acked = true
-					w.ServerSend(&refcodec.Packet{Type: refcodec.PINGRESP})
+					w.ServerSend(&refcodec.Packet{Type: refcodec.PINGRESP, PadLength: pad})
 				}
 				w.Settle()
+				if pad > 0 && (w.Srv.EOF || w.Srv.ReadErr != "") {
+					// the library refused that form of the packet (PINGRESP: "expecting 0 in one
+					// byte") and ended the connection: a protocol error of the peer, nothing to demand
+					key = "DEAD-END"
+					return
+				}
 				wire := w.Srv.Take()
 				// requests sent from inside a completion callback show up here
 				var rest []*refcodec.Packet
@@ -264,9 +286,10 @@ func runSender(ops []sop, hist []int, trace bool) (viol, key string, steps int) 
 // C12: sender side (sequential histories here; the interleaving of the sending
 // call with the arrival of the acknowledgement is explored by c12sched).
 func C12(c *core.Ctx) {
-	c.Rep.Bound = "HIST, client role: Publish QoS 0/1/2, Subscribe, Unsubscribe, Ping calls and peer acknowledgements (PUBACK, PUBREC, PUBCOMP, SUBACK, UNSUBACK for the oldest or the newest outstanding request, PINGRESP), BFS de-duplicated on the open-request states to depth 6 (quick) / 8 (thorough), every sequence to depth 4/5; SCHED: one API call racing its own acknowledgement, all interleavings with <= 2 (quick) / 3 (thorough) preemptions; broker role: two publishers with equal packet ids towards one non-acknowledging subscriber; every sequence to depth 5 (quick) / 6 (thorough) of QoS 1/2 publishes and the subscriber's PUBREC / repeated PUBREC / PUBCOMP / PUBACK for the oldest or newest delivery awaiting it"
+	c.Rep.Bound = "HIST, client role: Publish QoS 0/1/2, Subscribe, Unsubscribe, Ping calls and peer acknowledgements (PUBACK, PUBREC, PUBCOMP, SUBACK, UNSUBACK for the oldest or the newest outstanding request, PINGRESP), BFS de-duplicated on the open-request states to depth 6 (quick) / 8 (thorough), every sequence to depth 4/5, and every sequence to that depth of API calls and acknowledgements whose remaining length is written in one byte more than necessary; SCHED: four outstanding requests acknowledged 2,1,4,3 in one segment; one API call racing its own acknowledgement, all interleavings with <= 2 (quick) / 3 (thorough) preemptions; broker role: two publishers with equal packet ids towards one non-acknowledging subscriber; every sequence to depth 5 (quick) / 6 (thorough) of QoS 1/2 publishes and the subscriber's PUBREC / repeated PUBREC / PUBCOMP / PUBACK for the oldest or newest delivery awaiting it"
 	c.Rep.Rule = "every PUBREC is answered by PUBREL with the same id; each completion callback fires exactly once, never before the terminal acknowledgement was sent by the peer, and at quiescence has fired once that acknowledgement and those of all earlier requests of the same kind were sent; identifiers of requests simultaneously in flight are non-zero and pairwise distinct"
-	ops := senderOps()
+	ops := senderOpsPadded()
+	nBase := len(senderOps())
 	if c.Replay != nil {
 		if strings.HasPrefix(c.Replay.Scenario, "sender") && !strings.HasPrefix(c.Replay.Scenario, "sender-race") && !strings.HasPrefix(c.Replay.Scenario, "sender-burst") {
 			var hist []int
@@ -279,6 +302,7 @@ func C12(c *core.Ctx) {
 		}
 		c12burst(c)
 		c12sched(c)
+		c12batches(c)
 		c12broker(c)
 		c12brokerFlow(c)
 		return
@@ -287,14 +311,38 @@ func C12(c *core.Ctx) {
 	if c.Thorough() {
 		d1, d2 = 8, 5
 	}
+	// third search: every sequence of API calls and acknowledgements with a padded length field
+	var padSel []int
+	for i, o := range ops {
+		switch {
+		case i >= nBase, o.kind == "api:pub1", o.kind == "api:pub2", o.kind == "api:sub", o.kind == "api:unsub", o.kind == "api:ping":
+			padSel = append(padSel, i)
+		}
+	}
 	for _, s := range []struct {
 		name  string
 		depth int
 		dedup bool
-	}{{"sender", d1, true}, {"sender-sequences", d2, false}} {
-		o := explore.HistOpts{Name: s.name, NOps: len(ops), OpName: func(i int) string { return ops[i].String() }, MaxDepth: s.depth, Dedup: s.dedup,
+		sel   []int
+	}{{"sender", d1, true, nil}, {"sender-sequences", d2, false, nil}, {"sender-padded-acks", d2, false, padSel}} {
+		s := s
+		mapped := func(h []int) []int {
+			if s.sel == nil {
+				return h
+			}
+			out := make([]int, len(h))
+			for i, k := range h {
+				out[i] = s.sel[k]
+			}
+			return out
+		}
+		nops := nBase
+		if s.sel != nil {
+			nops = len(s.sel)
+		}
+		o := explore.HistOpts{Name: s.name, NOps: nops, OpName: func(i int) string { return ops[mapped([]int{i})[0]].String() }, MaxDepth: s.depth, Dedup: s.dedup,
 			Shard: c.Shard, NShards: c.NShards, Deadline: c.Deadline,
-			Run: func(h []int) (string, string, int) { return runSender(ops, h, false) }}
+			Run: func(h []int) (string, string, int) { return runSender(ops, mapped(h), false) }}
 		st := explore.Hist(o)
 		r := c.Rep
 		r.Scenarios++
@@ -310,7 +358,7 @@ func C12(c *core.Ctx) {
 		r.Notes = append(r.Notes, fmt.Sprintf("%s: complete to depth %d (fixpoint=%v)", s.name, st.DepthDone, st.Fixpoint))
 		r.Sample(map[string]interface{}{"search": s.name, "alphabet": len(ops), "depth": st.DepthDone, "states": st.States, "histories": st.Histories})
 		if st.Violation != "" {
-			in, _ := json.Marshal(st.Hist)
+			in, _ := json.Marshal(mapped(st.Hist))
 			if c.Violate("C12 "+s.name+" :: "+violClass(st.Violation), core.Replay{Scenario: s.name + ": " + explore.HistString(o, st.Hist), Message: st.Violation, Input: in}) {
 				return
 			}
@@ -321,6 +369,7 @@ func C12(c *core.Ctx) {
 		return
 	}
 	c12sched(c)
+	c12batches(c)
 	c12broker(c)
 	c12brokerFlow(c)
 }
